@@ -354,10 +354,11 @@ Print Assumptions C01_concrete_complete.
 (** The network, derived instead of assumed. Hypotheses: ideal integrity of the AEAD (C05's); only the
     sender seals, and only its packets. For every sequence of arriving byte strings interleaved with any
     other calls on the received-packet handler: every packet whose frames are handled is a packet of the
-    sender (corrupted, truncated, invented datagrams deliver nothing), and - as long as no processed number
-    has fallen at or below the watermark of numbers the history forgot through the MaxNumAckRanges limit
-    (C07_watermark_only_at_limit) - no packet number, hence no packet, is handled twice (a duplicated
-    datagram delivers its frames once). *)
+    sender (corrupted, truncated, invented datagrams deliver nothing), and no packet number, hence no packet, is
+    handled twice (a duplicated or replayed datagram delivers its frames once) - in EVERY history, also behind
+    more than MaxNumAckRanges gaps: C07's [dup_inv] / [dup_always_step] over the received-packet history as
+    repaired by fixes/C07-trimmed-history-counts-as-received.patch (/repo 4675722).  Before that repair a
+    packet replayed behind 65+ gaps was processed again (monitor simdgram/dup-replay-beyond-ack-ranges). *)
 Theorem C01_net_processed_once :
   forall (aead_open : Z -> Z -> list Z -> list Z -> option (list Z)) (hp_mask : list Z -> list Z)
          (aead_seal : Z -> Z -> list Z -> list Z -> list Z) (sealed : Z -> Z -> list Z -> list Z -> Prop),
@@ -366,27 +367,9 @@ Theorem C01_net_processed_once :
   (forall pn kp hdr p, sealed pn kp hdr p -> In (pn, kp, p) sent) ->
   forall nevs : list nev,
   let ns := nrun aead_open hp_mask nst0 nevs in
-  incl (n_procs ns) sent /\
-  ((forall q, In q (pns ns) -> ~ RecvPH.ProofsHist.le_opt q (n_W ns 2%nat)) -> NoDup (pns ns) /\ NoDup (n_procs ns)).
+  incl (n_procs ns) sent /\ NoDup (pns ns) /\ NoDup (n_procs ns).
 Proof. exact processed_from_sent. Qed.
 Print Assumptions C01_net_processed_once.
-
-(** Prepared for C07's repaired history (trimming raises deletedBelow, no watermark ever set): without a
-    watermark in the application-data space the conclusion is unconditional.  On the CURRENT (unrepaired)
-    received_packet_history.go the premise fails on a reachable schedule - more than MaxNumAckRanges gaps, then
-    a replay of a forgotten packet: the packet is processed again and its DATAGRAM frame delivered twice;
-    monitor simdgram/dup-replay-beyond-ack-ranges shows it on the implementation. *)
-Theorem C01_net_processed_once_no_watermark :
-  forall (aead_open : Z -> Z -> list Z -> list Z -> option (list Z)) (hp_mask : list Z -> list Z)
-         (aead_seal : Z -> Z -> list Z -> list Z -> list Z) (sealed : Z -> Z -> list Z -> list Z -> Prop),
-  (forall pn kp ad c p, aead_open pn kp ad c = Some p -> sealed pn kp ad p /\ c = aead_seal pn kp ad p) ->
-  forall sent : list (Z * Z * list Z),
-  (forall pn kp hdr p, sealed pn kp hdr p -> In (pn, kp, p) sent) ->
-  forall nevs : list nev,
-  let ns := nrun aead_open hp_mask nst0 nevs in
-  n_W ns 2%nat = None -> NoDup (pns ns) /\ NoDup (n_procs ns).
-Proof. exact processed_once_no_watermark. Qed.
-Print Assumptions C01_net_processed_once_no_watermark.
 
 (** C01_end_to_end_prefix / C01_complete_if_covered in their final form:
     SendStream.Model o packets o arbitrary network o (C05 unpack . C07 duplicate filter) o RecvStream.Model.
@@ -446,8 +429,6 @@ Theorem C01_datagram_end_to_end :
   forall (sent : list (Z * Z * list Z)),
   (forall pn kp hdr p, sealed pn kp hdr p -> In (pn, kp, p) sent) ->
   forall (dgs_in : list Z -> list (list Z)) (nevs : list nev),
-  (forall q, In q (pns (nrun aead_open hp_mask nst0 nevs)) ->
-     ~ RecvPH.ProofsHist.le_opt q (n_W (nrun aead_open hp_mask nst0 nevs) 2%nat)) ->
   forall pops : list pop_, Forall wf_op pops ->
   flat_map dgs_in (map snd sent) = dgs_of (sent_of (combine pops (snd (prun pk0 pops)))) ->
   forall rops : list dop, ~ In DPop rops ->
@@ -458,14 +439,24 @@ Print Assumptions C01_datagram_end_to_end.
 
 (** Non-vacuity of the world hypotheses and of the packet path: a lookup-authenticated AEAD satisfies [ideal]
     and [honest]; the same protected packet arriving twice, then corrupted, then truncated, is handled once;
-    no watermark was reached. *)
+    the connection stays open. *)
 Example C01_net_nonvacuous :
   (forall pn kp ad c p, ex_open pn kp ad c = Some p -> ex_sealed pn kp ad p /\ c = ex_seal pn kp ad p) /\
   (forall pn kp hdr p, ex_sealed pn kp hdr p -> In (pn, kp, p) ex_sent) /\
   let ns := nrun ex_open ex_mask nst0 ex_arrivals in
-  n_procs ns = ex_sent /\ n_closed ns = false /\ n_W ns 2%nat = None.
+  n_procs ns = ex_sent /\ n_closed ns = false.
 Proof. split; [exact ex_ideal|]. split; [exact ex_honest|]. vm_compute. repeat split. Qed.
 Print Assumptions C01_net_nonvacuous.
+
+(** Regression example for finding simdgram/dup-replay-beyond-ack-ranges (the former counterexample to the
+    datagram clause, audit problem 1): 70 packets 0, 2, ..., 138 arrive, each behind a gap (more ACK ranges than
+    MaxNumAckRanges = 64, the oldest are forgotten), then packet 0 is replayed and opens again under the AEAD.
+    On the model of the repaired history it is processed once (before the repair: twice). *)
+Example C01_replay_beyond_ack_ranges_repaired :
+  let ns := nrun ex2_open ex_mask nst0 (ex2_arrivals 70) in
+  length (pns ns) = 70%nat /\ count_occ Z.eq_dec (pns ns) 0 = 1%nat /\ n_closed ns = false.
+Proof. vm_compute. repeat split. Qed.
+Print Assumptions C01_replay_beyond_ack_ranges_repaired.
 
 (** Non-vacuity of the concrete receiver composition: the frames of [C01_nonvacuous]'s history, delivered out
     of order and duplicated to the RecvStream model, with interleaved reads. *)
